@@ -303,6 +303,10 @@ func (t *Thread) processIncomingInterest(packet *defn.Pkt) {
 				core.LogWarn(t, "Interest ", packet.Name, " cannot be sent to non-local FaceID=", *packet.NextHopFaceID, " since violates /localhost scope - DROP")
 				return
 			}
+			if nextHopFace.FaceID() == incomingFace.FaceID() && nextHopFace.LinkType() != defn.AdHoc {
+				core.LogWarn(t, "Interest ", packet.Name, " cannot be sent back to the non-ad-hoc FaceID=", *packet.NextHopFaceID, " it arrived on - DROP")
+				return
+			}
 			core.LogTrace(t, "NextHopFaceId is set for Interest ", packet.Name, " - dispatching directly to face")
 			nextHopFace.SendPacket(dispatch.OutPkt{
 				Pkt:      packet,
